@@ -575,6 +575,10 @@ func impl() {
 		var res string
 		if sum != goShpSum {
 			res = "pin-mismatch " + sum
+		} else if strings.HasPrefix(line, "rfile ") {
+			if pan := vproto.Safe(func() { res = runReflectLine(line) }); pan != "" {
+				res = "harness-panic:" + pan
+			}
 		} else if pan := vproto.Safe(func() { res = runCase(parseCase(line)) }); pan != "" {
 			res = "harness-panic:" + pan
 		}
